@@ -561,6 +561,13 @@ def run(prog, rep, tier):
     for st in body_nodoc(init.node):
         if isinstance(st, ast.Assign) and isinstance(st.targets[0], ast.Tuple) and isinstance(st.value, ast.Call):
             got = [field_of(x) for x in st.targets[0].elts]
+            if all(isinstance(x, ast.Name) for x in st.targets[0].elts):
+                # unpacked into locals first, stored afterwards: follow each local to the one attribute it is stored into
+                later = {}
+                for s2 in body_nodoc(init.node):
+                    if isinstance(s2, ast.Assign) and len(s2.targets) == 1 and isinstance(s2.value, ast.Name) and field_of(s2.targets[0]) is not None:
+                        later.setdefault(s2.value.id, []).append(field_of(s2.targets[0]))
+                got = [later[x.id][0] if len(later.get(x.id, [])) == 1 else None for x in st.targets[0].elts]
             f = st.value.func
             if isinstance(f, ast.Attribute) and f.attr == "initialize" and field_of(f.value) == "initop":
                 found = True
